@@ -594,9 +594,44 @@ def folder_scan(F, rep):
         rep.unresolved("R9", "folder-scan", "no directory scan building RateFile values found in the front-ends")
 
 
+def every_loaded_rate_applied(F, rep):
+    """R6 (a folder rate replaces the bundled rate for exactly that currency and month): whatever the loader parsed from a supplied
+    file goes into the cache. The insertion stands under nothing but the iteration over the files and the propagation of errors; a
+    further condition — "skip this file if a later one is for the same month" (compared without the year: seeded change C08-s7) —
+    silently leaves a supplied rate out and the bundled one in force."""
+    from roles import guards_of
+    n = 0
+
+    def benign(cond):
+        txt = show(cond)
+        if isinstance(cond, tuple) and cond and cond[0] == "discr" and any(k in txt for k in ("next(", "branch(")):
+            return True
+        names = {parse_callee(x[1])[2] for x in subterms(cond) if isinstance(x, tuple) and x and x[0] == "call"}
+        return "extension" in names and not (names & {"file_stem", "file_name", "split_once", "parse", "starts_with", "len", "chars", "contains", "any", "all"})
+    for b in F.bodies.values():
+        if b.crate != "cgt_money" or "::cache::" in b.id or not P.user_written(F, b):
+            continue
+        tb = None
+        for i, t in b.calls():
+            m = parse_callee(t["callee"])
+            aty = (t.get("aty") or [""])[0]
+            if m[2] not in ("extend", "insert") or "FxCache" not in aty + t["callee"]:
+                continue
+            tb = tb or Terms(F, b, inline_depth=2)
+            extra = [show(cond)[:90] for cond, val, where in guards_of(b, tb, i) if not benign(cond)]
+            n += 1
+            rep.ob("R6", f"{b.short}:applies-every-entry@{i}", not extra, "parsed rates enter the cache unconditionally (iteration and error propagation only)" if not extra else
+                   f"`{b.short}` puts parsed rates into the cache only under {extra[:2]}: a supplied rate that fails the test is dropped without a message and the "
+                   "bundled rate of that month stays in force", b.loc(t["sp"]), key=f"R6:{b.short}:conditional-insert")
+    rep.count("cache_fill_sites", n)
+    if n < 2:
+        rep.unresolved("R6", "cache-fill", f"only {n} sites filling the FX cache found in the loader (bundled and folder expected)")
+
+
 def run(ctx, rep):
     F = ctx.F
     folder_scan(F, rep)
+    every_loaded_rate_applied(F, rep)
     conv = field_wise(F, rep)
     converter(F, rep, conv)
     loader(F, rep)
